@@ -28,6 +28,7 @@ Decides (static, on type-checked MIR of every autocomplete configuration):
  T12 untruncated   no format placeholder in the completion modules carries a precision (candidates and descriptions are never cut).
  T13 descr         zsh: every `compadd .. -d descr` line of the candidate loop follows the `descr=(..)` assignment made for the same candidate.
  T14 bash appends   every render_bash directive that mentions COMPREPLY appends to it (`+=`).
+ T8' first line   the description is the placeholder after the TAB; it is the first element of a forward split / the front half of split_once.
 Does not decide: that sourcing the text in a real shell has no other effect."""
 import re
 from core import *
